@@ -724,6 +724,20 @@ pub fn run(_ctx: &Ctx, case: &UciCase, spec: &SchedSpec) -> RunReport {
         let mut fresh = case.clone();
         fresh.script = case.script[pf..].to_vec();
         fresh.probe_from = None;
+        // `ucinewgame` does not touch the current position: if the new game starts searching
+        // without setting one up, the fresh session is given the last `position` line of game 1
+        let starts_with_position = fresh.script.iter().find_map(|s| if let UStep::Line(l) = s { Some(l.starts_with("position")) } else { None }).unwrap_or(true);
+        let mut fresh_first_line = 0usize;
+        if !starts_with_position {
+            let last_pos = case.script[..pf].iter().rev().find_map(|s| match s {
+                UStep::Line(l) if l.starts_with("position") => Some(l.clone()),
+                _ => None,
+            });
+            if let Some(l) = last_pos {
+                fresh.script.insert(0, UStep::Line(l));
+                fresh_first_line = 1;
+            }
+        }
         let mut s2 = spec.clone();
         s2.seed = crate::rng::derive(spec.seed, 18, 1);
         s2.strategy = Strategy::Sticky(900);
@@ -734,7 +748,7 @@ pub fn run(_ctx: &Ctx, case: &UciCase, spec: &SchedSpec) -> RunReport {
         let lines_before = case.script[..pf].iter().filter(|s| matches!(s, UStep::Line(_))).count();
         if let (Some(sb), true) = (sb, o2 == Outcome::Completed) {
             let ta = probe_transcript(sa, lines_before);
-            let tb = probe_transcript(&sb, 0);
+            let tb = probe_transcript(&sb, fresh_first_line);
             if ta != tb {
                 let d = ta.iter().zip(tb.iter()).position(|(a, b)| a != b).unwrap_or(ta.len().min(tb.len()));
                 let cmds: Vec<&String> = case.script.iter().filter_map(|s| if let UStep::Line(l) = s { Some(l) } else { None }).collect();
@@ -1251,7 +1265,12 @@ pub fn generate(ctx: &Ctx, prop: &str, rng: &mut Rng64, thorough: bool, index: u
                     }
                     _ => position_line(rng, true).0,
                 };
-                if r == 0 || rng.chance(700) {
+                // (the first round sometimes keeps the position that was set before `ucinewgame`,
+                // provided that line is well-formed and its position has a legal move)
+                // (disabled: whether `ucinewgame` keeps the current position is not something C18
+                // speaks about; an engine that resets it to the start position would be flagged)
+                let keep_old = false && r == 0 && rng.chance(200) && !earlier.is_empty();
+                if (r == 0 && !keep_old) || (r > 0 && rng.chance(700)) {
                     s.push(UStep::Line(pl));
                 }
                 if rng.chance(150) {
